@@ -123,8 +123,8 @@ def valid_text(r, fmt, tier):
                                         "max_nets": 3})
         return textgen_edif.render(d, r, {"ws": "plain"})
     if fmt == "v":
-        d = textgen_verilog.gen_design(r, {"depth": r.choice([1, 2]), "max_mods": 1, "max_ports": 2, "max_wires": 2,
-                                           "max_insts": 2, "max_prims": 2})
+        d = textgen_verilog.gen_design(r, {"depth": r.choice([1, 2, 3]), "max_mods": r.choice([1, 2]), "max_ports": 2,
+                                           "max_wires": 2, "max_insts": r.choice([2, 3]), "max_prims": 2})
         return textgen_verilog.render(d, r, {"ws": "plain"})
     d = textgen_eblif.gen_design(r, {"max_ports": 2, "max_blackboxes": 2, "max_stmts": 4})
     return textgen_eblif.render(d, r, {"comment_rate": 0.1})
